@@ -68,7 +68,18 @@ def _worker(task):
                     for (i, j) in task.get('equal_pairs', ()):
                         ok, m = ctx.valid(sets[i] == sets[j])
                         rr = {'i': i, 'j': j, 'holds': ok, 's': 0.0, 'pair': True}
-                        if not ok: rr['witness'] = _witness(lab, m, sets[i], sets[j])
+                        if not ok:
+                            if entry == 'eval_node_steady':
+                                # prefer a counterexample the public API can realise: real steady states vs the empty set
+                                M_ = lab.M
+                                cons = z3.And(z3.BitVec('STEADY1', M_.W) & M_.unit == M_.steady() & M_.unit, z3.BitVec('STEADY2', M_.W) & M_.unit == 0)
+                                ok2, m2 = ctx.valid(z3.Or(z3.Not(cons), sets[i] == sets[j]))
+                                if not ok2 and m2 is not None: m = m2; rr['realisable'] = True
+                                elif ok2:
+                                    # arbitrary steady-state arguments distinguish the results, the two the API can pass do not:
+                                    # the property (stated through the public API) holds on this path
+                                    rr['holds'] = True; rr['note'] = 'holds for the realisable steady-state arguments only'
+                            if not rr['holds']: rr['witness'] = _witness(lab, m, sets[i], sets[j])
                         rec['results'].append(rr)
             # the path condition must be satisfiable (vacuity guard) -- checked in lab.paths
             out['paths'].append(rec)
@@ -228,8 +239,15 @@ def _confirm_pair(chk, pid, base, task, rr, signature):
     if not w['colour_valid']:
         chk.obligation(base + ' (pair counterexample at an invalid colour)', 'E-MIR/fork', 'inconclusive'); return
     n, T, sets = _concrete(task, w)
-    res = native_batch(n, T, sets, task['phis'], task['k'], 'ext_multi_dirty', task.get('texts'))
     i, j = rr['i'], rr['j']
+    if task['entry'] == 'eval_node_steady':
+        # the two steady-state arguments the public API can produce: the real steady states and the empty set
+        ra = native_batch(n, T, sets, [task['phis'][i]], task['k'], 'ext_dirty', None); rb = native_batch(n, T, sets, [task['phis'][j]], task['k'], 'unsafe_ex', None)
+        res = {'error': ra['error'] or rb['error'], 'native': [None] * len(task['phis']), 'aeon': ra['aeon'], 'context': ra['context'], 'entries': ['model_check_extended_formula_dirty', 'model_check_formula_unsafe_ex']}
+        if not res['error']: res['native'][i] = ra['native'][0]; res['native'][j] = rb['native'][0]
+        if not res['error'] and i == j and ra['native'][0] == rb['native'][0]: pass
+    else:
+        res = native_batch(n, T, sets, task['phis'], task['k'], 'ext_multi_dirty', task.get('texts'))
     if res['error'] or res['native'][i] != res['native'][j]:
         chk.obligation(base, 'E-MIR/fork', 'violated')
         chk.violation(base, signature + '-pair', {'formulas': [S.show(f) for f in task['phis']], 'pair': [i, j], 'witness': w, 'native': res},
